@@ -183,6 +183,9 @@ func driveC13(seed int64, tier, out, replay string) {
 				if i%3 == 2 {
 					c.Domain = "unions"
 				}
+				if i%6 == 4 {
+					c.Domain = "ifaces"
+				}
 				cases = append(cases, c)
 			}
 		}
